@@ -1219,15 +1219,6 @@ entry separator of the tier's own class (`intervals [`, `intervals[` in an inter
 point tier).  Plain substrings of the label itself: quote doubling does not matter, the patterns have no quote. -/
 def NoKwLong (t : AnyTier α) : Prop := ∀ s ∈ texts t, ∀ p ∈ itA :: itB :: entrySeps t, ¬ p <:+: s.toList
 
-def nameOf : AnyTier α → String
-  | .I t => t.name
-  | .P t => t.name
-def labelsOf : AnyTier α → List String
-  | .I t => t.es.map (·.l)
-  | .P t => t.ps.map (·.l)
-
-/-- labels are strip-invariant (names need not be: the long-format reader does not strip names) -/
-def StrippedLabels (t : AnyTier α) : Prop := ∀ s ∈ labelsOf t, pyStrip s = s
 /-- the name is a single line (the reader's `name ?= ?"(.*)"` does not cross a line break) -/
 def NameLine (t : AnyTier α) : Prop := '\n' ∉ (nameOf t).toList
 
@@ -2592,9 +2583,9 @@ theorem parseText_long_emit (num : α → String) (hnum : ∀ x, LongNum (num x)
 /-- the short-format file through the sniffing: it is read with the short-format reader as long as it does not contain
 `item [` (then `caseB` holds) — names, labels and numerals without `item [`.  (`hnumI`: a property of the renderer, true of
 every CPython numeral; `hit`: known defect A10, needed — `parseText_short_item_counterexample`; the others as for
-`parseShort_emit`.) -/
+`parseShort_emit`: in particular NO hypothesis on tier names beyond the keywords — surrounding blanks are kept, fix A31.) -/
 theorem parseText_short_emit (num : α → String) (hnum : ∀ x, NumWord (num x)) (hnumI : ∀ x, ¬ itA <:+: (num x).toList)
-    (g : Tg α) (lo hi : α) (hne : g.tiers ≠ []) (hkw : ∀ t ∈ g.tiers, NoKw t) (hstr : ∀ t ∈ g.tiers, Stripped' t)
+    (g : Tg α) (lo hi : α) (hne : g.tiers ≠ []) (hkw : ∀ t ∈ g.tiers, NoKw t) (hstr : ∀ t ∈ g.tiers, StrippedLabels t)
     (hcr : ∀ t ∈ g.tiers, NoCRLF t) (hit : ∀ t ∈ g.tiers, ∀ s ∈ texts t, ¬ itA <:+: s.toList) (includeEmpty : Bool) :
     Rd.parseText (Txt.ofString (tgToShort num g lo hi)) includeEmpty = .ok (dropEmpty includeEmpty (rawOf num g lo hi)) := by
   have hbA : '[' ∈ itA := by decide
